@@ -232,7 +232,14 @@ impl Ctx {
         (b.ceil() as usize).max(1)
     }
 
+    /// true under the Miri interpreter (3-4 orders of magnitude slower): the binaries switch to
+    /// their small workloads. ASan / memcheck run the native workloads, scaled by `--scale`.
     pub fn is_sanitizer_mode(&self) -> bool {
+        matches!(self.mode.as_str(), "miri" | "mirirel")
+    }
+
+    /// hooks are compiled out in these modes (the external tool is the observer)
+    pub fn hooks_off(&self) -> bool {
         matches!(self.mode.as_str(), "miri" | "mirirel" | "asan" | "vg")
     }
 
